@@ -1,5 +1,7 @@
 import Proofs.Lemmas.Adders
 import Proofs.Lemmas.KoggeStone
+import Proofs.Lemmas.SeqMult
+import Proofs.Lemmas.Wallace
 /-!
 # C13 — rtllib adders and multipliers are exact for all widths and values
 
@@ -46,5 +48,124 @@ theorem kogge_stone_exact (a b : List Bool) (cin : Bool) :
 example : toNat (koggeStone (ofNat 4 11) (ofNat 4 7) true) = 11 + 7 + 1 := by decide
 example : toNat (koggeStone (ofNat 5 31) (ofNat 3 1) false) = 32 := by decide
 example : toNat (claAdder (ofNat 5 29) (ofNat 2 3) true 2) = 33 := by decide
+
+/-! ## Sequential multipliers (`simple_mult`: `s = 1`; `complex_mult`: `s = shifts`)
+
+`SeqMult.step` is one clock edge of the register-level model (tied to the real netlists cycle by cycle on
+random start/operand histories by tools/checks/c13.py).  A start pulse is `step st0 true A B` from an
+*arbitrary* earlier state `st0` (reset, finished, or a multiplication still in flight); `idle` is any number
+of cycles with `start = 0`, the operand inputs being free (they are not read).  The start edge is cycle 0;
+the state after it and `k` idle edges is what is visible during cycle `k + 1`. -/
+open Pyrtl.SeqMult in
+/-- `done` is up at the latest `len(A)` idle cycles after the start edge (cycle `len(A)+1`), stays up, and
+    the accumulator then holds exactly `A * B`. -/
+theorem seq_mult_done_and_exact (alen blen s A B : Nat) (hs : 1 ≤ s) (hA : A < 2 ^ alen) (hB : B < 2 ^ blen)
+    (st0 : St) (ops : List (Nat × Nat)) (hlen : alen ≤ ops.length) :
+    done (idle alen blen s (step alen blen s st0 true A B) ops) = true ∧
+    (idle alen blen s (step alen blen s st0 true A B) ops).acc = A * B := by
+  have h0 : step alen blen s st0 true A B = shape alen blen s A B 0 := by
+    rw [shape_zero _ _ _ _ _ hB]; simp [step]
+  obtain ⟨j', _, h2, h3, h4⟩ := idle_from_shape alen blen s A B ops 0
+  rw [h0, h3]
+  have hz : (shape alen blen s A B j').a = 0 := by
+    by_cases hlt : j' < 0 + ops.length
+    · exact h4 hlt
+    · rw [shape_a_zero_iff]
+      have hj : alen ≤ s * j' := by
+        have : alen ≤ j' := by omega
+        calc alen ≤ j' := this
+          _ = 1 * j' := (Nat.one_mul _).symm
+          _ ≤ s * j' := Nat.mul_le_mul_right _ hs
+      exact lt_of_lt_of_le hA (Nat.pow_le_pow_right (by norm_num) hj)
+  exact ⟨by simp [done, hz], shape_done_acc _ _ _ _ _ _ hA hB hz⟩
+
+open Pyrtl.SeqMult in
+/-- whenever `done` is seen after a start (however early), the accumulator is exactly `A * B` -/
+theorem seq_mult_exact_whenever_done (alen blen s A B : Nat) (hA : A < 2 ^ alen) (hB : B < 2 ^ blen)
+    (st0 : St) (ops : List (Nat × Nat))
+    (hd : done (idle alen blen s (step alen blen s st0 true A B) ops) = true) :
+    (idle alen blen s (step alen blen s st0 true A B) ops).acc = A * B := by
+  have h0 : step alen blen s st0 true A B = shape alen blen s A B 0 := by
+    rw [shape_zero _ _ _ _ _ hB]; simp [step]
+  obtain ⟨j', _, _, h3, _⟩ := idle_from_shape alen blen s A B ops 0
+  rw [h0, h3] at hd ⊢
+  exact shape_done_acc _ _ _ _ _ _ hA hB (by simpa [done] using hd)
+
+-- the hypotheses are satisfiable and the bound is met: 4-bit 13 x 11, restarted from a state in flight
+example : SeqMult.idle 4 4 1 (SeqMult.step 4 4 1 ⟨9, 40, 17⟩ true 13 11) [(0, 0), (1, 2), (3, 4), (5, 6)]
+    = ⟨0, 176, 143⟩ := by decide
+example : SeqMult.done (SeqMult.idle 4 4 1 (SeqMult.step 4 4 1 ⟨9, 40, 17⟩ true 13 11) [(0, 0), (0, 0), (0, 0)]) = false := by decide
+example : (SeqMult.idle 5 3 2 (SeqMult.step 5 3 2 SeqMult.init true 31 7) [(0, 0), (0, 0), (0, 0)]).acc = 217 := by decide
+
+/-! ## Wallace-tree reduction: `wallace_reducer`, `fast_group_adder`, `tree_multiplier`
+
+`Adders.wallaceReducer` models the reducer on a column array (`len(array) ≤ result_bitwidth`, as in every
+caller); the final adder is a parameter of which only exactness is assumed — `ripple_exact`, `cla_exact`
+and `kogge_stone_exact` above discharge it for the adders the library offers. -/
+
+/-- `wallace_reducer` returns the weighted column sum modulo `2^result_bitwidth`, for every column array,
+    every height and every exact final adder; the reduction loop always terminates (its fuel in the model,
+    the tallest column, suffices: `reduceLoop_done`). -/
+theorem wallace_reducer_value (adder : List Bool → List Bool → List Bool)
+    (hadd : ∀ a b, toNat (adder a b) = toNat a + toNat b)
+    (cols : List (List Bool)) (W : Nat) (hW : cols.length ≤ W) :
+    toNat (wallaceReducer adder cols W) = colsVal cols % 2 ^ W :=
+  wallaceReducer_val adder hadd cols W hW
+
+/-- **`fast_group_adder`** (Wallace reducer): the exact sum of any number of operands of any lengths -/
+theorem fast_group_adder_exact (adder : List Bool → List Bool → List Bool)
+    (hadd : ∀ a b, toNat (adder a b) = toNat a + toNat b) (ws : List (List Bool)) :
+    toNat (fastGroupAdder adder ws) = (ws.map toNat).sum := by
+  unfold fastGroupAdder
+  simp only []
+  obtain ⟨hl, hv⟩ := foldl_pushWire ws (List.replicate (maxLen ws) []) (by
+    intro w hw; rw [List.length_replicate]; exact le_maxLen ws w hw)
+  rw [List.length_replicate] at hl
+  rw [wallaceReducer_val adder hadd _ _ (by rw [hl]; exact Nat.le_add_right _ _), hv, colsVal_replicate, Nat.zero_add]
+  apply Nat.mod_eq_of_lt
+  have h1 := sum_toNat_lt ws (maxLen ws) (le_maxLen ws)
+  have h2 := le_two_pow_clog2 ws.length
+  rw [Nat.pow_add]
+  rcases Nat.eq_zero_or_pos ws.length with h0 | hpos
+  · have : ws = [] := List.eq_nil_of_length_eq_zero h0
+    subst this; simp
+  · calc (ws.map toNat).sum < ws.length * 2 ^ maxLen ws := by omega
+      _ ≤ 2 ^ clog2 ws.length * 2 ^ maxLen ws := Nat.mul_le_mul_right _ h2
+      _ = 2 ^ maxLen ws * 2 ^ clog2 ws.length := Nat.mul_comm _ _
+
+/-- **`tree_multiplier`** (Wallace reducer): the exact product for all operand lengths, including the
+    one-bit shortcut -/
+theorem tree_multiplier_exact (adder : List Bool → List Bool → List Bool)
+    (hadd : ∀ a b, toNat (adder a b) = toNat a + toNat b) (A B : List Bool) (hA : A ≠ []) (hB : B ≠ []) :
+    toNat (treeMultiplier adder A B) = toNat A * toNat B := by
+  unfold treeMultiplier
+  by_cases hb1 : (B.length == 1) = true
+  · have hb1' : B.length = 1 := by simpa using hb1
+    simp only [hb1, ↓reduceIte, toNat_append, toNat_map_and, toNat, List.length_map, Nat.mul_zero,
+      Nat.add_zero, toNat_single B hb1', b2n, Bool.false_eq_true]
+    exact Nat.mul_comm _ _
+  · simp only [hb1, Bool.false_eq_true, ↓reduceIte]
+    by_cases ha1 : (A.length == 1) = true
+    · have ha1' : A.length = 1 := by simpa using ha1
+      simp only [ha1, ↓reduceIte, toNat_append, toNat_map_and, toNat, List.length_map, Nat.mul_zero,
+        Nat.add_zero, toNat_single A ha1', b2n, Bool.false_eq_true]
+    · simp only [ha1, Bool.false_eq_true, ↓reduceIte]
+      obtain ⟨hpl, hpv⟩ := partials_val A B hA
+      rw [wallaceReducer_val adder hadd _ _ (by rw [hpl]), hpv]
+      apply Nat.mod_eq_of_lt
+      rw [Nat.pow_add]
+      exact Nat.mul_lt_mul'' (toNat_lt A) (toNat_lt B)
+
+/-- with the library's own adders as the final adder -/
+theorem tree_multiplier_kogge_stone_exact (A B : List Bool) (hA : A ≠ []) (hB : B ≠ []) :
+    toNat (treeMultiplier (fun a b => koggeStone a b false) A B) = toNat A * toNat B :=
+  tree_multiplier_exact _ (fun a b => by simpa [b2n] using kogge_stone_exact a b false) A B hA hB
+
+theorem fast_group_adder_kogge_stone_exact (ws : List (List Bool)) :
+    toNat (fastGroupAdder (fun a b => koggeStone a b false) ws) = (ws.map toNat).sum :=
+  fast_group_adder_exact _ (fun a b => by simpa [b2n] using kogge_stone_exact a b false) ws
+
+example : toNat (treeMultiplier (fun a b => koggeStone a b false) (ofNat 4 13) (ofNat 3 7)) = 91 := by decide
+example : toNat (fastGroupAdder (fun a b => rippleAdd a b false) [ofNat 3 7, ofNat 2 3, ofNat 3 5, ofNat 1 1, ofNat 3 6]) = 22 := by decide
 
 end Pyrtl.C13
